@@ -98,6 +98,33 @@ CLAIMED = {
                 'whole-core/GPU requests without tags only.',
  },
 
+ 'C05': {
+  'engine'    : 'bfs',
+  'category'  : 'model_checking',
+  'design_ref': 'DESIGN.md 4 (C05), 5, A.6',
+  'technique' : 'explicit-state model checking (BFS over deep-copied worlds) '
+                'of the real component pipeline with fault injection',
+  'text'      : 'A pipeline world of the real client and agent components '
+                '(TaskManager, RoundRobin, tmgr/agent staging in/out, Agent_0 '
+                'proxy callbacks, Continuous scheduler with its real loop, '
+                'Popen executor), each driven through its real work_cb()/'
+                'handler as an atomic step over in-memory queues/pubsubs, is '
+                'explored by BFS: every order of component steps, process '
+                'exits, watcher passes and unschedule deliveries, for a faulty '
+                'task plus a follow-up / same-bulk / concurrent task and each '
+                'of 16 fault placements (non-zero exit, no launcher, launch '
+                'errors, 4 staging failures, work() raising in each of 7 '
+                'components).  At every quiescent state all delivery orders '
+                'of the buffered state notifications to the client are '
+                'enumerated; each task must be final exactly once with the '
+                'state the injected events imply, with exit code / exception '
+                'recorded, and the other task must still reach DONE.',
+  'note'      : 'Executor handlers and scheduler-loop iterations are atomic '
+                'here (their interleavings are C07/C04); notifications are '
+                'split per task for the client-order enumeration (batch '
+                'effects are C06); message loss is outside.',
+ },
+
  'C06': {
   'engine'    : 'bfs',
   'category'  : 'model_checking',
@@ -146,6 +173,32 @@ CLAIMED = {
                 'publish() are atomic; a killed process dies at once; '
                 'sp.Popen/os.killpg/time are harness fakes; script creation is '
                 'a succeed-or-raise seam.',
+ },
+
+ 'C08': {
+  'engine'    : 'bfs',
+  'category'  : 'model_checking',
+  'design_ref': 'DESIGN.md 4 (C08)',
+  'technique' : 'explicit-state BFS of the pipeline world with the cancel '
+                'request and each of its 8 per-component deliveries as events; '
+                'plus the scheduler-loop exploration (C04 harness, cancel '
+                'family) and the executor thread exploration (C07 harness)',
+  'text'      : 'Pipeline world as C05 without faults: a named task alone, a '
+                'named task and a bystander in one bulk (thorough: also '
+                'concurrent, cancel of the second, one-core pilot where one '
+                'waits, no natural exit); TaskManager.cancel_tasks may be '
+                'issued in every reachable state and its control message is '
+                'delivered to each component separately in every order.  The '
+                'named task must end CANCELED unless its process finished by '
+                'itself, every task must end final, the scheduler map returns '
+                'to the initial one, the bystander ends DONE with the '
+                'undisturbed callback sequence.  The same oracle family is '
+                'evaluated where the request lands inside the scheduler loop '
+                '(three observable steps of the request at every read point) '
+                'and inside the executor threads (delay-bounded schedules).',
+  'note'      : 'A pending cancel delivery is dropped from the state once the '
+                'named task can no longer reach that component (linear '
+                'pipeline).',
  },
 
  'C09': {
